@@ -77,7 +77,7 @@ def coord(rng):
     return rng.choice([Fr(rng.randint(-200, 900)), Fr(rng.randint(-400, 1800), 2), Fr(rng.randint(-800, 3600), 4), Fr(123), Fr(5, 2)])
 
 
-def gen_font(rng):
+def gen_font(rng, modifier=False):
     glyphs = []
     # a font is either Indic (abvm/blwm) or not: the abvm/blwm lookups only admit glyphs classified into an Indic
     # script, so a script-inherited mark such as U+0327 is never attached to a Devanagari glyph (observation O2 in
@@ -125,10 +125,19 @@ def gen_font(rng):
         glyphs.append({"name": nmame, "unicodes": [], "width": 900, "anchors": anchors, "cat": "ligature"})
     if rng.random() < 0.2:
         glyphs.append({"name": "lonely", "unicodes": [], "width": 300, "anchors": [("_nomatch", coord(rng), coord(rng)), ("top", coord(rng), coord(rng))], "cat": "base"})
+    if modifier:
+        # a glyph categorised as BASE that also carries an attaching anchor matched elsewhere in the font (a spacing modifier
+        # that can itself sit on a base): as a base it still takes the marks its own anchors ask for
+        k0 = next(a[0][1:] for g in glyphs if g["cat"] == "mark" for a in g["anchors"] if a[0].startswith("_"))
+        if not any(a[0] == k0 for g in glyphs if g["cat"] == "base" for a in g["anchors"]):
+            next(g for g in glyphs if g["cat"] == "base")["anchors"].append((k0, coord(rng), coord(rng)))
+        glyphs.append({"name": "modifier", "unicodes": [0x2C8], "width": 300, "cat": "base",
+                       "anchors": [("_" + k0, coord(rng), coord(rng)), (k0, coord(rng), coord(rng)),
+                                   (next(k for k in KEYS if k != k0), coord(rng), coord(rng))]})
     for g in glyphs:
         g["contours"] = []
     lib = {}
-    if rng.random() < 0.4:
+    if rng.random() < 0.4 or modifier:
         lib["public.openTypeCategories"] = {g["name"]: g["cat"] for g in glyphs}
     if features is None and not indic and rng.random() < 0.3:
         # the feature file already holds a markClass statement under the very name the writer generates (@MC_<key>), with an
@@ -423,7 +432,9 @@ def explore(ctx):
     rng = ctx.subrng("attach")
     cases, meta = [], []
     for i in range(ctx.budget(60, 500)):
-        desc = gen_font(rng)
+        desc = gen_font(rng, modifier=(i % 6 == 4))
+        if i % 6 == 4:
+            ctx.klass("a base glyph (by category) that carries a matched attaching anchor")
         lib = rng.choice(["ufoLib2", "defcon"])
         case = {"font": jsonable(desc), "lib": lib}
         try:
